@@ -166,8 +166,8 @@ Qed.
    rounding, a saturating sum, and a next_int call that returns a value on the rejection path. *)
 Example c19_nonvacuous_fixed_prng :
   in_i64 6442450945%Z /\ in_i64 (-3)%Z /\
-  (I64_MIN < dfix_mul 6442450945 (-3) < I64_MAX)%Z /\ dfix_mul 6442450945 (-3) = (-4)%Z /\
-  (I64_MIN < dfix_div 6442450945 (-3) < I64_MAX)%Z /\ dfix_div 6442450945 (-3) = (-9223372038286226091)%Z /\
+  (I64_MIN < dfix_mul 6442450945 (-3) < I64_MAX)%Z /\ dfix_mul 6442450945 (-3) = (-5)%Z /\
+  (I64_MIN < dfix_div 8 (-3) < I64_MAX)%Z /\ dfix_div 8 (-3) = (-11453246123)%Z /\
   dfix_add I64_MAX 1 = I64_MAX /\ dfix_neg I64_MIN = I64_MAX /\
   fx_from_f32 0x3fc00000 = 6442450944%Z /\ fx_from_f32 0x7f7fffff = I64_MAX /\
   prng_next_int 64 (prng_from_seed 42 99) (-10) 10 = Some (5%Z, (1513209474797682761, 5016521801728)).
